@@ -320,7 +320,16 @@ def standin_predicates(tier, seed):
         if not any(f["failed"] == what for f in fails):
             fails.append(dict(args={k: repr(v) for k, v in kw.items()}, failed=what, clause=what + ": " + ", ".join(f"{k}={v!r}" for k, v in kw.items())[:300]))
 
-    # trace distance bound is an upper bound
+    # trace distance bound is an upper bound (composite gates accumulate the angles of their parts: copies of partial rotations,
+    # controlled partial rotations, tagged / parallel wrappers)
+    wrapped = [cirq.ParallelGate(g0 ** e_, k_) for g0 in (cirq.X, cirq.Z, cirq.Y) for e_ in (0.25, 0.3, 0.4, 0.5, 0.6, 0.75) for k_ in (2, 3, 4) if not (g0 is not cirq.X and k_ == 4)]
+    wrapped += [cirq.ControlledGate(cirq.X ** e_, num_controls=k_) for e_ in (0.3, 0.5, 0.75, 1.25) for k_ in (1, 2)]
+    wrapped += [cirq.ParallelGate(cirq.PhasedXPowGate(phase_exponent=0.3, exponent=0.45), 3), cirq.ParallelGate(cirq.H ** 0.5, 3)]
+    for g in wrapped:
+        cases += 1
+        tb, true_ = cirq.trace_distance_bound(g), _true_trace_distance_bound(cirq.unitary(g))
+        if tb + 1e-8 < true_:
+            bad("trace_distance_bound is smaller than the true trace distance", gate=g, bound=tb, true=true_)
     for g in lib:
         u = cirq.unitary(g)
         cases += 1
